@@ -31,6 +31,8 @@ CLAIMED = {
          "c0 and divisor g with c0/g >= 1 and every candidate count; soundness and exactness of the judge c07_check. Tie: valid_alignments() "
          "output on generated continua and on shapes sitting on every buffer-growth boundary is judged by the extracted c07_check; the code's "
          "buffer constants are re-read from the source on each run and checked against the hypothesis of the theorem.",
+         "Translator tie: c2n, the cut expression, the keep test, the final strip [:i_chosen - 1] and the loop shapes of _get_all_valid_alignments are "
+         "translated from dissimilarity.py (genprops/KernelGen.v); C07_src_* re-prove cut / passes / removelast against them on every run. " +
          TB + "Gray zone of relative width 2^-15 around the cut."),
  "C08": ("4/C08", "formulation-equivalence theorem + three solver configurations judged by the verified checkers",
          "Theorems: A x = 1 <=> (A x <= 1 and A x >= 1); either vector decodes to a partition / cover; the selection logic ends in exactly one "
@@ -41,10 +43,14 @@ CLAIMED = {
          "Theorems: A x >= 1 iff cover; cover search sound/optimal for non-negative costs; pruning sound for covers; C11_soft_is_minimal; "
          "soft <= best. Tie: library soft alignments judged by is_coverb, certified minimal by the extracted budgeted search, compared with best.",
          TB + "Costs are those of dissimilarity.d()."),
- "C12": ("4/C12", "theorems on the accumulator-loop model + exact-rational comparison of gamma_k_disorder / gamma_cat / gamma_k",
+ "C12": ("4/C12", "theorems on the accumulator-loop model; gamma_cat / gamma_k value rule and job wiring translated from continuum.py and re-proved equal to the model on every run; exact-rational comparison of gamma_k_disorder / gamma_cat / gamma_k",
          "Theorems: the loop equals the weighted mean over considered pairs (gk_loop_eq_spec), exact characterisation of the conventional values, "
          "non-negativity, gamma-cat/gamma-k <= 1, zero disorder (gamma = 1) when categories agree and nothing is unaligned, order independence. "
-         "Tie: gamma_k_disorder on best / soft / random alignments x combined dissimilarities x categories, and gamma_cat / gamma_k of "
+         "Tie 1 (translator): the bodies of GammaResults.gamma_cat / gamma_k (value rule; which job is submitted with which category over which "
+         "alignments) and the accumulator loop of Alignment.gamma_k_disorder (statement by statement: one turn of the pair loop as a state "
+         "transformer, the weight base, the final value) are translated from the current sources and C12_src_* prove them equal to gamma_cat_of / "
+         "gamma_of / gk_step / weight_base / gk_loop (the whole loop, by induction over the alignment). "
+         "Tie 2 (correspondence): gamma_k_disorder on best / soft / random alignments x combined dissimilarities x categories, and gamma_cat / gamma_k of "
          "compute_gamma results, compared with the extracted model evaluated on the library's own positional/categorical unit values.",
          TB + "Unit-to-unit values are inputs (C04); tolerance 2^-15."),
  "C13": ("4/C13", "invariant + refinement theorems over all histories; exhaustive short and random long histories run against the model",
@@ -53,6 +59,8 @@ CLAIMED = {
          "set-per-annotator specification; canonical form; equality; tight bounds after reset; in-place = out-of-place merge. Tie: operation "
          "sequences (exhaustive to depth 2/3 over 52 operations, random to length 60) executed on real Continuum objects and on the extracted "
          "model with every observation compared exactly after every operation.",
+         "Translator tie: Unit.__lt__, Continuum.__eq__ / __ne__ / __bool__ are translated from continuum.py (harness/gen_cont.py -> genprops/ContGen.v) and "
+         "C13_src_* re-prove them equal to unit_ltb / cont_eqb / cont_bool on every run. " +
          TB + "sortedcontainers / pyannote Segment are reached through the Continuum API only; names and labels are order-preserving ranks."),
  "C17": ("4/C17", "exact characterisation theorems of both checks + outcome comparison on neighbours of valid alignments",
          "Theorems: check succeeds iff uniform lengths, every continuum pair present and no pair repeated (iff exactly once on own-pair alignments); "
@@ -84,11 +92,17 @@ CLAIMED = {
          "UnitaryAlignment.compute_disorder is REFUTED (definition x n/k with empty slots: known finding, pinned by a test). Tie: Alignment.disorder, "
          "[u.disorder], Alignment.compute_disorder, UnitaryAlignment.compute_disorder on best / soft / fast and hand-built alignments (shuffled "
          "slots, with / without continuum) against the extracted model's exact sums within 2^-15.",
+         "Translator tie: the pair rule (delta_empty when either category cell is -1, else the kernel value), the divisor and the loop shape of "
+         "_compute_alignment_disorders are translated from dissimilarity.py (harness/gen_kernel.py -> genprops/KernelGen.v) and C03_src_* re-prove them equal "
+         "to pair_cost / c2n / pairs on every run. " +
          TB + "Pair costs are those of d() (C04)."),
- "C05": ("4/C05", "theorems on the sampling rule and on gamma + recorded compute_gamma runs judged by the model and the verified checkers",
+ "C05": ("4/C05", "theorems on the sampling rule and on gamma, re-proved equal to the gamma / sample-count code translated from continuum.py on every run + recorded compute_gamma runs judged by the model and the verified checkers",
          "Theorems: total = max(n_samples, N_required), no extra sample without precision, second batch iff needed, N_required is the exact ceiling of "
          "conf^2 Var / (mean^2 p^2), gamma <= 1, gamma = 1 when observed is 0, identical annotations have a zero-cost partition hence optimum 0. "
-         "Tie: compute_gamma over modes x samplers x precision x n_samples x ground-truth subsets with the sampler recorded: sample count equals the "
+         "Tie 1 (translator): GammaResults.gamma / expected_disorder, the required_samples expression, the test guarding the second batch and its size "
+         "are translated from the current continuum.py (harness/gen_gamma.py -> genprops/GammaGen.v); C05_src_* prove them equal to gamma_of, "
+         "n_required (with the source's confidence constant, for any std whose square is the population variance) and second_batch. "
+         "Tie 2 (correspondence): compute_gamma over modes x samplers x precision x n_samples x ground-truth subsets with the sampler recorded: sample count equals the "
          "extracted rule evaluated exactly on the library's chance disorders, one fresh sample per chance alignment in draw order, chance "
          "alignments judged by the verified partition / cover checkers against their own continua, observed / expected / gamma recomputed.",
          TB + "Validity and laws of the samples themselves are C15 / C16; constants re-read from the source each run."),
